@@ -1,7 +1,9 @@
-//! Shared by the C02 / C03 binaries (included with `#[path]`): merge-table and text
+//! Shared by the C02 / C03 / C04 binaries (included with `#[path]`): merge-table and text
 //! generators, construction of the REAL `BPETokenizer` from a table (via a merge
-//! file written with `SerializeMsgPack::save`), and a reference run of the heap
-//! loop that is used ONLY to compute tags (number of merges / stale pops).
+//! file written with `SerializeMsgPack::save`, or from hand-made file bytes), the file's
+//! bytes and the real loader's reading of them (handed to the model, which decodes the
+//! bytes itself), and a reference run of the heap loop that is used ONLY to compute tags
+//! (number of merges / stale pops).
 #![allow(dead_code)]
 use std::cmp::Reverse;
 use std::collections::{BinaryHeap, HashMap};
@@ -77,18 +79,309 @@ pub fn build_tokenizer(
     special: SpecialConfig,
     use_graphemes: bool,
 ) -> anyhow::Result<BPETokenizer> {
+    build_tokenizer_file(dir, table, None, max_vocab_size, special, use_graphemes).0
+}
+
+/// The merge file as it is on disk when the real tokenizer is built, and what the real loader
+/// (`MergeOps::load`, the call `BPETokenizer::new` makes) reads from it. Both go to the model, which
+/// decodes the bytes itself (`MsgPack_Model.v`).
+#[derive(Clone, Debug, PartialEq)]
+pub struct MergeFile {
+    pub bytes: Vec<u8>,
+    /// `(id, key)` sorted; `None` = the loader returned `Err`
+    pub loaded: Option<Vec<(u32, Vec<u8>)>>,
+}
+
+impl MergeFile {
+    pub fn bytes_val(&self) -> Val {
+        Val::bytes(&self.bytes)
+    }
+    /// `((id key) ...)` sorted by (id, key); `()` when the file did not load
+    pub fn loaded_val(&self) -> Val {
+        match &self.loaded {
+            Some(l) => Val::list(l.iter(), |(i, k)| Val::L(vec![Val::I(*i as i64), Val::bytes(k)])),
+            None => Val::L(vec![]),
+        }
+    }
+    /// keys in id order when the ids are exactly 0..n-1
+    pub fn well_formed(&self) -> Option<Table> {
+        let l = self.loaded.as_ref()?;
+        if l.iter().enumerate().all(|(i, (id, _))| *id as usize == i) {
+            Some(l.iter().map(|(_, k)| k.clone()).collect())
+        } else {
+            None
+        }
+    }
+}
+
+/// Write the merge file — with the crate's own `save` of the table (entry i gets id i), or, when
+/// `explicit` is given, exactly those bytes — read it back and load it with the crate's `load`.
+pub fn write_merge_file(dir: &str, table: &Table, explicit: Option<&[u8]>) -> anyhow::Result<(std::path::PathBuf, MergeFile)> {
     static CNT: std::sync::atomic::AtomicUsize = std::sync::atomic::AtomicUsize::new(0);
     std::fs::create_dir_all(dir)?;
     let k = CNT.fetch_add(1, std::sync::atomic::Ordering::SeqCst);
     let path = std::path::PathBuf::from(format!("{dir}/{}-{k}.merges", std::process::id()));
-    let ops: MergeOps = table.iter().enumerate().map(|(i, b)| (b.clone(), i as u32)).collect();
-    ops.save(&path)?;
+    match explicit {
+        None => {
+            let ops: MergeOps = table.iter().enumerate().map(|(i, b)| (b.clone(), i as u32)).collect();
+            ops.save(&path)?;
+        }
+        Some(b) => std::fs::write(&path, b)?,
+    }
+    let bytes = std::fs::read(&path)?;
+    let loaded = MergeOps::load(&path).ok().map(|m| {
+        let mut l: Vec<(u32, Vec<u8>)> = m.into_iter().map(|(k, i)| (i, k)).collect();
+        l.sort();
+        l
+    });
+    Ok((path, MergeFile { bytes, loaded }))
+}
+
+pub fn build_tokenizer_file(
+    dir: &str,
+    table: &Table,
+    explicit: Option<&[u8]>,
+    max_vocab_size: Option<usize>,
+    special: SpecialConfig,
+    use_graphemes: bool,
+) -> (anyhow::Result<BPETokenizer>, MergeFile) {
+    let (path, mf) = match write_merge_file(dir, table, explicit) {
+        Ok(x) => x,
+        Err(e) => return (Err(e), MergeFile { bytes: vec![], loaded: None }),
+    };
     let r = BPETokenizer::new(
         BPETokenizerConfig { merge_file: path.clone(), max_vocab_size, use_graphemes },
         special,
     );
     let _ = std::fs::remove_file(&path);
-    r
+    (r, mf)
+}
+
+// ---------------------------------------------------------------------------------------------
+// hand-made merge files: the harness' own MessagePack writer (independent of rmp), used to feed the
+// real loader streams the crate's `save` never writes: other integer widths, wide headers, bin keys,
+// duplicate keys, trailing bytes, truncation, wrong types, ids >= 2^32
+
+/// an unsigned integer in one of the encodings MessagePack has for it; `style` picks among those that
+/// can hold `v` (0 = the minimal one `write_uint` chooses)
+pub fn mp_uint(out: &mut Vec<u8>, v: u64, style: usize) {
+    let mut forms: Vec<Vec<u8>> = vec![];
+    // unsigned family, narrowest first
+    if v < 128 {
+        forms.push(vec![v as u8]);
+    }
+    if v < 256 {
+        forms.push(vec![0xcc, v as u8]);
+    }
+    if v < 65536 {
+        let mut f = vec![0xcd];
+        f.extend((v as u16).to_be_bytes());
+        forms.push(f);
+    }
+    if v < (1u64 << 32) {
+        let mut f = vec![0xce];
+        f.extend((v as u32).to_be_bytes());
+        forms.push(f);
+    }
+    let mut f = vec![0xcf];
+    f.extend(v.to_be_bytes());
+    forms.push(f);
+    // signed family (non-negative values)
+    if v < 128 {
+        forms.push(vec![0xd0, v as u8]);
+    }
+    if v < 32768 {
+        let mut f = vec![0xd1];
+        f.extend((v as i16).to_be_bytes());
+        forms.push(f);
+    }
+    if v < (1u64 << 31) {
+        let mut f = vec![0xd2];
+        f.extend((v as i32).to_be_bytes());
+        forms.push(f);
+    }
+    if v < (1u64 << 63) {
+        let mut f = vec![0xd3];
+        f.extend((v as i64).to_be_bytes());
+        forms.push(f);
+    }
+    out.extend(&forms[style % forms.len()]);
+}
+
+/// a length header: `fix` = base of the fix form (0x80 map, 0x90 array), `m16` / `m32` the wide markers
+pub fn mp_len(out: &mut Vec<u8>, n: usize, fix: u8, m16: u8, style: usize) {
+    let mut forms: Vec<Vec<u8>> = vec![];
+    if n < 16 {
+        forms.push(vec![fix + n as u8]);
+    }
+    if n < 65536 {
+        let mut f = vec![m16];
+        f.extend((n as u16).to_be_bytes());
+        forms.push(f);
+    }
+    let mut f = vec![m16 + 1];
+    f.extend((n as u32).to_be_bytes());
+    forms.push(f);
+    out.extend(&forms[style % forms.len()]);
+}
+
+pub fn mp_key(out: &mut Vec<u8>, k: &[u8], hstyle: usize, estyle: &mut dyn FnMut() -> usize, bin: Option<usize>) {
+    match bin {
+        Some(b) => {
+            // bin8 / bin16 / bin32
+            let forms = [0xc4u8, 0xc5, 0xc6];
+            let w = if k.len() < 256 { b % 3 } else if k.len() < 65536 { 1 + b % 2 } else { 2 };
+            out.push(forms[w]);
+            match w {
+                0 => out.push(k.len() as u8),
+                1 => out.extend((k.len() as u16).to_be_bytes()),
+                _ => out.extend((k.len() as u32).to_be_bytes()),
+            }
+            out.extend(k);
+        }
+        None => {
+            mp_len(out, k.len(), 0x90, 0xdc, hstyle);
+            for b in k {
+                mp_uint(out, *b as u64, estyle());
+            }
+        }
+    }
+}
+
+/// a value of the wrong type where an integer / a key / the map is expected
+fn mp_wrong(rng: &mut Rng) -> Vec<u8> {
+    match rng.below(14) {
+        0 => vec![0xc0],                               // nil
+        1 => vec![0xc2 + rng.below(2) as u8],          // false / true
+        2 => vec![0xca, 0x3f, 0x80, 0, 0],             // f32 1.0
+        3 => vec![0xcb, 0x3f, 0xf0, 0, 0, 0, 0, 0, 0], // f64 1.0
+        4 => vec![0xe0 + rng.below(32) as u8],         // negative fixint
+        5 => vec![0xd0, 0x80 + rng.below(128) as u8],  // int8 < 0
+        6 => vec![0xd1, 0xff, 0xfe],                   // int16 -2
+        7 => vec![0xa1, b'a'],                         // fixstr "a"
+        8 => vec![0xd9, 2, b'a', b'b'],                // str8 "ab"
+        9 => vec![0xc1],                               // reserved
+        10 => vec![0xd4, 1, 7],                        // fixext1
+        11 => vec![0x81, 1, 1],                        // a map {1: 1}
+        12 => vec![0xd3, 0xff, 0xff, 0xff, 0xff, 0xff, 0xff, 0xff, 0xff], // int64 -1
+        _ => vec![0xcf, 0, 0, 0, 1, 0, 0, 0, rng.below(3) as u8], // uint64 >= 2^32
+    }
+}
+
+/// Bytes for a merge file derived from `table` (entry i has id i) and the kind of stream.
+/// Whether the real loader takes them is for the loader (and the model) to say.
+pub fn gen_merge_file(rng: &mut Rng, table: &Table) -> (Vec<u8>, &'static str) {
+    let n = table.len();
+    let mut entries: Vec<(Vec<u8>, u64)> = table.iter().enumerate().map(|(i, k)| (k.clone(), i as u64)).collect();
+    if rng.chance(3, 4) {
+        rng.shuffle(&mut entries);
+    }
+    let kind = match rng.below(20) {
+        0 => "canonical",
+        1..=2 => "widths",
+        3 => "headers",
+        4..=5 => "bin",
+        6..=7 => "dupkeys",
+        8..=9 => "trailing",
+        10 => "count-short",
+        11 => "count-long",
+        12..=13 => "truncated",
+        14..=16 => "wrong-type",
+        17 => "ids",
+        18 => "mixed",
+        _ => "empty-or-junk",
+    };
+    if kind == "empty-or-junk" {
+        let l = rng.below(4);
+        return ((0..l).map(|_| rng.below(256) as u8).collect(), kind);
+    }
+    let widths = matches!(kind, "widths" | "mixed");
+    let headers = matches!(kind, "headers" | "mixed");
+    let bin = matches!(kind, "bin") || (kind == "mixed" && rng.chance(1, 2));
+    if kind == "dupkeys" && n > 0 {
+        // earlier entries with the same key and another id: the later one wins
+        for _ in 0..rng.range(1, 3) {
+            let (k, _) = entries[rng.below(entries.len())].clone();
+            let at = rng.below(entries.iter().position(|e| e.0 == k).unwrap() + 1);
+            entries.insert(at, (k, rng.below(n + 2) as u64));
+        }
+        if rng.chance(1, 4) {
+            // ... or a later duplicate that does change the map
+            let (k, _) = entries[rng.below(entries.len())].clone();
+            entries.push((k, rng.below(n + 1) as u64));
+        }
+    }
+    if kind == "ids" && n > 0 {
+        let i = rng.below(entries.len());
+        entries[i].1 = match rng.below(5) {
+            0 => u32::MAX as u64,
+            1 => n as u64,
+            2 => entries[(i + 1) % entries.len()].1,
+            3 => 65536 + rng.below(3) as u64,
+            _ => (1u64 << 31) + rng.below(2) as u64,
+        };
+    }
+    let count = match kind {
+        "count-short" => entries.len().saturating_sub(rng.range(1, 2)),
+        "count-long" => entries.len() + rng.range(1, 3),
+        _ => entries.len(),
+    };
+    let wrong_at = if kind == "wrong-type" { Some((rng.below(entries.len().max(1)), rng.below(4))) } else { None };
+    let mut out = vec![];
+    if let Some((_, 3)) = wrong_at {
+        // the top level is not a map: an array header, or some other value
+        if rng.chance(1, 2) {
+            mp_len(&mut out, count, 0x90, 0xdc, 0);
+        } else {
+            return (mp_wrong(rng), kind);
+        }
+    } else {
+        mp_len(&mut out, count, 0x80, 0xde, if headers { rng.below(3) } else { 0 });
+    }
+    for (i, (k, id)) in entries.iter().enumerate() {
+        let wrong = wrong_at.filter(|w| w.0 == i).map(|w| w.1);
+        if wrong == Some(0) {
+            out.extend(mp_wrong(rng)); // instead of the key
+        } else if wrong == Some(1) && !k.is_empty() {
+            // a wrong element inside the key (or a byte value >= 256)
+            mp_len(&mut out, k.len(), 0x90, 0xdc, 0);
+            let at = rng.below(k.len());
+            for (j, b) in k.iter().enumerate() {
+                if j == at {
+                    if rng.chance(1, 3) {
+                        out.extend([0xcd, 1, *b]);
+                    } else {
+                        out.extend(mp_wrong(rng));
+                    }
+                } else {
+                    mp_uint(&mut out, *b as u64, 0);
+                }
+            }
+        } else {
+            let hs = if headers { rng.below(3) } else { 0 };
+            let b = if bin && rng.chance(2, 3) { Some(rng.below(3)) } else { None };
+            let mut es = || if widths { rng.below(9) } else { 0 };
+            mp_key(&mut out, k, hs, &mut es, b);
+        }
+        if wrong == Some(2) {
+            out.extend(mp_wrong(rng)); // instead of the id
+        } else {
+            mp_uint(&mut out, *id, if widths { rng.below(9) } else { 0 });
+        }
+    }
+    match kind {
+        "trailing" => {
+            for _ in 0..rng.range(1, 4) {
+                out.push(rng.below(256) as u8);
+            }
+        }
+        "truncated" => {
+            let cut = rng.below(out.len());
+            out.truncate(cut);
+        }
+        _ => {}
+    }
+    (out, kind)
 }
 
 pub fn plain_special() -> SpecialConfig {
